@@ -402,7 +402,11 @@ def run(prog: Program, res: Result, tier: str) -> None:
                 continue
             inst = f"{SHORT[K]}.relabel_atoms(copy=False) -> {ev.slot} holds {need}"
             badk = [k for k in ev.vkinds if k not in (need, "<src>")]
-            if badk:
+            if "<unknown>" in badk:
+                res.unrecognised("R-CONTAINER-KIND", inst, ev.where,
+                                 f"the containers stored in {ev.slot} come "
+                                 "from a call the interpreter cannot follow")
+            elif badk:
                 res.bad("R-CONTAINER-KIND", f"{ev.func}: {ev.stmt} {badk}",
                         ev.where, f"{inst}: rebinds {ev.slot} to a container "
                         f"of {badk}", instance=inst)
